@@ -28,4 +28,5 @@ def run(project, rep):
     rep.run(Z.z_r6_carrier_date, project, rep)
     rep.run(Z.z_r7_aware_values_kept, project, rep)
     rep.run(Z.z_r8_offset_domain, project, rep)
+    rep.run(Z.z_r10_offset_of_the_given_value, project, rep)
     rep.run(Z.z_r9_no_value_memo, project, rep)
